@@ -66,8 +66,9 @@ def quiet():
 def assert_repo():
     import pandapower
     p = os.path.realpath(pandapower.__file__)
-    if not p.startswith("/repo/"):
-        raise RuntimeError("pandapower not imported from /repo: %s" % p)
+    want = os.path.realpath(os.environ.get("PBT_REPO", "/repo")) + "/"
+    if not p.startswith(want):
+        raise RuntimeError("pandapower not imported from %s: %s" % (want, p))
 
 
 class Stats:
@@ -304,7 +305,9 @@ def main():
     per = (total + nshards - 1) // nshards if total > 0 else 0
     jobs = [(prop, tier, seed, k, nshards, per, deadline_s, {"noshrink": a.noshrink}) for k in range(nshards)]
     ctx = mp.get_context("spawn")
-    if nshards == 1:
+    if total <= 0 and not hasattr(mod, "enumerate_cases"):
+        results = []
+    elif nshards == 1:
         results = [worker(jobs[0])]
     else:
         with ctx.Pool(nshards) as pool:
